@@ -132,6 +132,11 @@ static mbstate_t state;
 // returns the number of bytes in c
 // returns -1 if c is not a valid utf8 character
 size_t utf8_char_to_string(char *s, int32_t c) {
+	// c32rtomb also encodes values beyond U+10FFFF (with up to 6 bytes), which would overflow s
+	if (utf8_num_bytes_char(c) == (size_t)-1) {
+		return (size_t)-1;
+	}
+
 	size_t num_bytes = c32rtomb(s, c, &state);
 	if (num_bytes != (size_t)-1) {
 		s[num_bytes] = '\0';
